@@ -828,13 +828,7 @@ def translate() -> tuple[str, dict]:
         J = Interp()
         J.opaque['Vec.from_str'] = from_str_hook(vec_name)
         J.opaque['str'] = lambda x: x
-        captured: dict[str, Any] = {}
-        J.opaque['Py_Matrix.from_angle'] = lambda *_a: sym_mat('a')
-        J.opaque['Angle.from_str'] = lambda *_a: SObj('Angle', {})
-
-        def to_angle_hook(*_a):
-            raise TranslateError('unexpected _to_angle hook')
-        return J, captured
+        return J, None
 
     # entity origin: if folded == 'origin': new_ent['origin'] = str(Vec.from_str(value) @ orient + origin)
     org_expr = None
@@ -959,27 +953,18 @@ def translate() -> tuple[str, dict]:
             'From Coq Require Import Reals ZArith NArith List.', 'From SV Require Import Rot.C17Base SM.C17Name.',
             'Import ListNotations.', 'Open Scope R_scope.', '']
     side['defs'] = sorted(E.defs)
+    _LAST.clear()
+    _LAST.update(E.defs)
     return '\n'.join(head + E.lines) + '\n', side
+
+
+_LAST: dict = {}
 
 
 def formulas() -> dict[str, tuple[list[tuple[str, str]], list]]:
     """The generated definitions as expression trees (for the numeric tie in checks/c17.py)."""
-    I_defs: dict = {}
-    # re-run translate() but keep the emitter: cheap (a few ms)
-    global _LAST
     translate()
-    return _LAST
+    return dict(_LAST)
 
-
-_LAST: dict = {}
-_orig_define = Emitter.define
-
-
-def _define(self, name, params, comps, comment):
-    _orig_define(self, name, params, comps, comment)
-    _LAST[name] = (params, comps)
-
-
-Emitter.define = _define      # type: ignore[method-assign]
 
 GEN = {'C17Formulas_gen': translate}
